@@ -225,10 +225,316 @@ pub fn case(rng: &mut Rng, out: &mut Out, bound: usize) {
     }
 }
 
+
+// ------------------------------------------------------------------ parametric grammars (implementation only)
+#[derive(Clone, Debug)]
+enum PExpr {
+    SelfRef,
+    Const(u64),
+    Incr,
+    Decr,
+    SetBit(u32),
+    ClearBit(u32),
+    Null,
+}
+#[derive(Clone, Debug)]
+enum PCond {
+    Ge(u64),
+    Gt(u64),
+    Le(u64),
+    Lt(u64),
+    Ne(u64),
+    Eq(u64),
+    BitSet(u32),
+    BitClear(u32),
+}
+#[derive(Clone, Debug)]
+enum PSym {
+    T(String),
+    N(String, PExpr),
+}
+type PRules = BTreeMap<String, Vec<(Vec<PSym>, Option<PCond>)>>;
+
+fn parse_u64(s: &str) -> Option<u64> {
+    let s = s.trim();
+    if let Some(h) = s.strip_prefix("0x") {
+        u64::from_str_radix(h, 16).ok()
+    } else {
+        s.parse().ok()
+    }
+}
+fn parse_pexpr(s: &str) -> Option<PExpr> {
+    Some(match s {
+        "_" => PExpr::SelfRef,
+        "null" => PExpr::Null,
+        "incr(_)" => PExpr::Incr,
+        "decr(_)" => PExpr::Decr,
+        _ if s.starts_with("set_bit(") => PExpr::SetBit(s[8..s.len() - 1].parse().ok()?),
+        _ if s.starts_with("clear_bit(") => PExpr::ClearBit(s[10..s.len() - 1].parse().ok()?),
+        _ => PExpr::Const(parse_u64(s)?),
+    })
+}
+fn parse_pcond(s: &str) -> Option<PCond> {
+    let s = s.trim();
+    let inner = |p: &str| -> Option<String> { s.strip_prefix(p).and_then(|r| r.strip_suffix(')')).map(|r| r.to_string()) };
+    let val = |r: String| -> Option<u64> {
+        let (a, b) = r.split_once(',')?;
+        if a.trim() != "_" {
+            return None;
+        }
+        parse_u64(b)
+    };
+    if let Some(r) = inner("ge(") {
+        return Some(PCond::Ge(val(r)?));
+    }
+    if let Some(r) = inner("gt(") {
+        return Some(PCond::Gt(val(r)?));
+    }
+    if let Some(r) = inner("le(") {
+        return Some(PCond::Le(val(r)?));
+    }
+    if let Some(r) = inner("lt(") {
+        return Some(PCond::Lt(val(r)?));
+    }
+    if let Some(r) = inner("ne(") {
+        return Some(PCond::Ne(val(r)?));
+    }
+    if let Some(r) = inner("eq(") {
+        return Some(PCond::Eq(val(r)?));
+    }
+    if let Some(r) = inner("bit_set(") {
+        return Some(PCond::BitSet(r.trim().parse().ok()?));
+    }
+    if let Some(r) = inner("bit_clear(") {
+        return Some(PCond::BitClear(r.trim().parse().ok()?));
+    }
+    if s == "is_zeros(_)" {
+        return Some(PCond::Eq(0));
+    }
+    None
+}
+fn parse_param_grammar(text: &str) -> Option<(String, PRules)> {
+    let mut rules: PRules = BTreeMap::new();
+    let mut cur = String::new();
+    for line in text.lines() {
+        let Some((lhs, rest)) = line.split_once('⇦') else { continue };
+        let lhs = lhs.trim();
+        if !lhs.is_empty() {
+            cur = lhs.split("::").next()?.to_string();
+        }
+        if cur.is_empty() {
+            return None;
+        }
+        let (rhs, cond) = match rest.split_once("%if") {
+            Some((a, c)) => (a, Some(parse_pcond(c)?)),
+            None => (rest, None),
+        };
+        let mut syms = vec![];
+        for tok in rhs.split_whitespace() {
+            if tok == "ϵ" {
+                continue;
+            }
+            if let Some((n, e)) = tok.split_once("::") {
+                syms.push(PSym::N(n.to_string(), parse_pexpr(e)?));
+            } else {
+                syms.push(PSym::T(tok.to_string()));
+            }
+        }
+        rules.entry(cur.clone()).or_default().push((syms, cond));
+    }
+    // names without "::" that are rule heads are non-parametric nonterminals
+    let heads: BTreeSet<String> = rules.keys().cloned().collect();
+    for alts in rules.values_mut() {
+        for (syms, _) in alts.iter_mut() {
+            for s in syms.iter_mut() {
+                if let PSym::T(n) = s {
+                    if heads.contains(n) {
+                        *s = PSym::N(n.clone(), PExpr::Null);
+                    }
+                }
+            }
+        }
+    }
+    let start = if rules.contains_key("_start_repl") { "_start_repl".to_string() } else { "start".to_string() };
+    if !rules.contains_key(&start) {
+        return None;
+    }
+    Some((start, rules))
+}
+fn eval_expr(e: &PExpr, v: u64) -> u64 {
+    match e {
+        PExpr::SelfRef => v,
+        PExpr::Const(c) => *c,
+        PExpr::Null => 0,
+        PExpr::Incr => v.saturating_add(1),
+        PExpr::Decr => v.saturating_sub(1),
+        PExpr::SetBit(k) => v | (1 << k),
+        PExpr::ClearBit(k) => v & !(1 << k),
+    }
+}
+fn eval_cond(c: &Option<PCond>, v: u64) -> bool {
+    match c {
+        None => true,
+        Some(PCond::Ge(a)) => v >= *a,
+        Some(PCond::Gt(a)) => v > *a,
+        Some(PCond::Le(a)) => v <= *a,
+        Some(PCond::Lt(a)) => v < *a,
+        Some(PCond::Ne(a)) => v != *a,
+        Some(PCond::Eq(a)) => v == *a,
+        Some(PCond::BitSet(k)) => v >> k & 1 == 1,
+        Some(PCond::BitClear(k)) => v >> k & 1 == 0,
+    }
+}
+/// terminal sequences of length <= bound from (start, 0); None when too many instances are reachable
+fn param_language(start: &str, rules: &PRules, bound: usize) -> Option<BTreeSet<Vec<String>>> {
+    // reachable (symbol, value) instances
+    let mut inst: BTreeSet<(String, u64)> = BTreeSet::new();
+    let mut todo = vec![(start.to_string(), 0u64)];
+    while let Some((n, v)) = todo.pop() {
+        if !inst.insert((n.clone(), v)) {
+            continue;
+        }
+        if inst.len() > 400 {
+            return None;
+        }
+        for (syms, cond) in rules.get(&n)? {
+            if !eval_cond(cond, v) {
+                continue;
+            }
+            for s in syms {
+                if let PSym::N(m, e) = s {
+                    todo.push((m.clone(), eval_expr(e, v)));
+                }
+            }
+        }
+    }
+    let mut lang: BTreeMap<(String, u64), BTreeSet<Vec<String>>> = inst.iter().map(|k| (k.clone(), BTreeSet::new())).collect();
+    loop {
+        let mut changed = false;
+        for (n, v) in &inst {
+            for (syms, cond) in &rules[n] {
+                if !eval_cond(cond, *v) {
+                    continue;
+                }
+                let mut acc: BTreeSet<Vec<String>> = [vec![]].into_iter().collect();
+                for s in syms {
+                    let sl: BTreeSet<Vec<String>> = match s {
+                        PSym::T(t) => [vec![t.clone()]].into_iter().collect(),
+                        PSym::N(m, e) => lang.get(&(m.clone(), eval_expr(e, *v))).cloned().unwrap_or_default(),
+                    };
+                    let mut next = BTreeSet::new();
+                    for a in &acc {
+                        for b in &sl {
+                            if a.len() + b.len() <= bound {
+                                let mut c = a.clone();
+                                c.extend(b.iter().cloned());
+                                next.insert(c);
+                            }
+                        }
+                    }
+                    acc = next;
+                    if acc.is_empty() {
+                        break;
+                    }
+                }
+                let e = lang.get_mut(&(n.clone(), *v)).unwrap();
+                for w in acc {
+                    if e.insert(w) {
+                        changed = true;
+                    }
+                }
+            }
+        }
+        if !changed {
+            break;
+        }
+    }
+    lang.get(&(start.to_string(), 0)).cloned()
+}
+
+fn gen_param_lark(rng: &mut Rng) -> String {
+    let n = rng.range(2, 4);
+    let mut out = format!("start: p0::{}{}\n", rng.below(2), if rng.chance(1, 2) { " \"e\"" } else { "" });
+    let cond = |rng: &mut Rng| -> String {
+        let a = rng.below(4);
+        match rng.below(6) {
+            0 => format!(" %if ge(_, {a})"),
+            1 => format!(" %if lt(_, {})", a + 1),
+            2 => format!(" %if le(_, {a})"),
+            3 => format!(" %if gt(_, {a})"),
+            4 => format!(" %if ne(_, {a})"),
+            _ => String::new(),
+        }
+    };
+    for i in 0..n {
+        let mut alts: Vec<String> = vec![];
+        // guarded self recursion keeps the language finite per value
+        if rng.chance(2, 3) {
+            alts.push(format!("\"t{}\" p{i}::incr(_) %if lt(_, {})", rng.below(3), rng.range(2, 4)));
+        }
+        for _ in 0..rng.range(1, 2) {
+            let mut a = String::new();
+            for _ in 0..rng.below(2) {
+                a.push_str(&format!("\"t{}\" ", rng.below(3)));
+            }
+            if i + 1 < n && rng.chance(3, 4) {
+                let j = rng.range(i + 1, n - 1);
+                let e = *rng.pick(&["_", "_", "incr(_)", "1", "set_bit(1)"]);
+                a.push_str(&format!("p{j}::{e}"));
+            } else {
+                a.push_str(&format!("\"t{}\"", rng.below(3)));
+            }
+            a.push_str(&cond(rng));
+            alts.push(a);
+        }
+        out.push_str(&format!("p{i}::_: {}\n", alts.join("\n    | ")));
+    }
+    out
+}
+
+pub fn param_case(rng: &mut Rng, out: &mut Out, bound: usize) {
+    let lark = gen_param_lark(rng);
+    let gi = GrammarInit::Serialized(TopLevelGrammar::from_lark(lark.clone()));
+    let Ok((gram, lex)) = gi.to_internal(None, ParserLimits::default()) else {
+        out.count("param_grammar_rejected", 1);
+        return;
+    };
+    let before = gram.to_string(Some(&lex));
+    let opt = std::panic::catch_unwind(std::panic::AssertUnwindSafe(|| gram.optimize().to_string(Some(&lex))));
+    let Ok(after) = opt else {
+        // the optimiser asserts on some parametric shapes; the engine reports that as a grammar error
+        out.count("param_optimizer_assert", 1);
+        return;
+    };
+    let (Some((s1, r1)), Some((s2, r2))) = (parse_param_grammar(&before), parse_param_grammar(&after)) else {
+        out.count("param_unparsable_dump", 1);
+        return;
+    };
+    let (Some(l1), Some(l2)) = (param_language(&s1, &r1, bound), param_language(&s2, &r2, bound)) else {
+        out.count("param_too_many_instances", 1);
+        return;
+    };
+    if l1 != l2 {
+        let only1: Vec<_> = l1.difference(&l2).take(3).cloned().collect();
+        let only2: Vec<_> = l2.difference(&l1).take(3).cloned().collect();
+        out.violation(
+            &format!("optimize() changed the language of a parametric grammar: only before {:?}, only after {:?}", only1, only2),
+            format!("{lark}\n--- before ---\n{before}\n--- after ---\n{after}"),
+        );
+    }
+    out.count("param_grammars", 1);
+    out.count("param_sequences", l1.len() as u64);
+    if before.matches("%if").count() != after.matches("%if").count() {
+        out.count("param_conditions_rewritten", 1);
+    }
+}
+
 pub fn run(rng: &mut Rng, out: &mut Out, tier: &str) {
     let (n, bound) = if tier == "thorough" { (4000, 6) } else { (500, 5) };
     for i in 0..n {
         let mut r = rng.fork(i as u64);
         case(&mut r, out, bound);
+        let mut r = rng.fork(0x1500_0000 + i as u64);
+        param_case(&mut r, out, bound + 1);
     }
 }
